@@ -370,6 +370,21 @@ func (rn *runner) scheduleOn(kind string, s *gi.Session, pick int) {
 	rn.R.Evaluations++
 }
 
+// largeCase: ~600 allocations in one /22 pool, then a reload of the same configuration and a restart: every stored record
+// must be back in memory (a LIST which is limited to one page, or otherwise truncated, loses the rest).
+func (rn *runner) largeCase() {
+	s, conf := gi.LargeCase(600)
+	st := s.ExecOnly(gi.Op{Kind: "conf", Conf: conf, Plan: gi.NoPlan()})
+	rn.Note(&st)
+	rn.monitor(s, &st)
+	st2 := s.ExecOnly(gi.Op{Kind: "restart", Plan: gi.NoPlan()})
+	st2.Op.Kind = "conf" // judge the restart like a reload of the same configuration
+	st2.Op.Conf = conf
+	rn.monitor(s, &st2)
+	rn.R.Hit("large-case:600-allocations-reload-restart")
+	rn.R.Evaluations++
+}
+
 // replay: a history file, optionally ending in a schedule line.
 func (rn *runner) replay(path string) {
 	lines, err := hx.ReadOps(path)
@@ -406,6 +421,7 @@ func run(e *hx.Env) *hx.Report {
 	for i := 0; i < n; i++ {
 		rn.history(length)
 	}
+	rn.largeCase()
 	if e.Thorough() {
 		for i := 0; i < 150; i++ {
 			rn.schedule([]string{"allocate", "release"}[i%2])
